@@ -65,6 +65,17 @@ def _case(draw):
     if draw(st.integers(0, 5)) == 0:
         case["shared"] = draw(st.sampled_from(["list", "dict"]))
         return case
+    if draw(st.integers(0, 9)) == 0:
+        # a list (8-12 members, possibly rows) whose members all compare equal although their kinds differ
+        row = draw(st.sampled_from([[0, 0.0], [1, 1.0, True], [5, 5.0], [False, 0], [2.0, 2], [-1, -1.0]]))
+        n = draw(st.integers(8, 12))
+        members = [draw(st.sampled_from(row)) for _ in range(n)]
+        if len({type(m) for m in members}) == 1:
+            members[draw(st.integers(0, n - 1))] = next(x for x in row if type(x) is not type(members[0]))
+        if draw(st.booleans()):
+            members = [[m, "ok"] for m in members]
+        v = members if draw(st.booleans()) else {"rows": members}
+        case["value"] = v
     mode = draw(st.sampled_from(["perturb", "perturb", "perturb", "perturb", "nonplain", "nonplain", "missing-default"]))
     if mode == "missing-default":
         # a dict of the value holds a member equal to what a defaultdict / Counter invents for an absent key; the
